@@ -31,7 +31,8 @@ EXPLANATION = (
     ' Fifth round: the Japanese node template on every path; label recovery total over any three categories.'
     ' Sixth and seventh round: delimiters and atoms of Category.parse, the PTB reader chosen by how the name ends, every line parsed by itself (R20.4), the tree factories store what they are given (R20.1).'
     ' Eighth round: a token keeps every field it was given (R20.1); the dependency pattern of the Japanese bank (R20.3); ja_of writes the word form unchanged (R20.6).'
-    ' Ninth and tenth round: the PTB dispatch tests for an opening bracket before it takes an item for a word with closing brackets (R20.6).')
+    ' Ninth and tenth round: the PTB dispatch tests for an opening bracket before it takes an item for a word with closing brackets (R20.6).'
+    ' Eleventh round: a joined field of the ja leaf record falls back to its placeholder exactly when the joined list is empty (R20.6).')
 TRUSTED = ['CPython ast', 'sa/pysym.py path walker', 'independent category grammar sa/datafiles.py', 'rule table DESIGN.md C20']
 
 RD = 'depccg/tools/reader.py'
